@@ -1,7 +1,10 @@
 """C15 — CQRS buses and processors dispatch by type name with the configured ack policy."""
 from . import common as C
 
-HEADER = 'From WM Require Import Base.Prelude Message.Model Handler.RouterHandle CQRS.Model CQRS.Reg Corr.C15.\n'
+HEADER = 'From WM Require Import Base.Prelude Message.Model Handler.RouterHandle CQRS.Model CQRS.Reg CQRS.Calls Corr.C15.\n' \
+         'Definition mNF : mevent val := MNameFrom. Definition mUN : N -> N -> bool -> bool -> mevent val := MUnmarshal. Definition mHD : N -> N -> mevent val := MHandle.\n' \
+         'Definition mMA : val -> mevent val := MMarshal. Definition mNA : val -> mevent val := MName.\n' \
+         'Definition mNone : option (list (mevent val)) := None. Definition mSome (l : list (mevent val)) : option (list (mevent val)) := Some l.\n'
 PRE = ['PreNone', 'PreAck', 'PreNack']
 HRES = ['HROk', 'HRErr', 'HRPanic']
 OH = ['OhNil', 'OhPass', 'OhSwallow', 'OhSkipOk', 'OhSkipErr', 'OhPanic']
@@ -154,6 +157,18 @@ def describe_regs(c):
                             result=x['res']) for x in c['calls']],
                 router=[dict(name=sv(rh[0]), topic=sv(rh[1]) if rh[1] >= 0 else None, subscriber=rh[2], members=rh[3]) for rh in c['router']], Handlers=c['handlers'], anomalies=c.get('anomalies'))
 
+def mevent_term(e):
+    k = e[0]
+    if k == 'm-marshal': return '(mMA %s)' % val(e[1], e[2])
+    if k == 'm-name': return '(mNA %s)' % val(e[1], e[2])
+    if k == 'm-namefrom': return 'mNF'
+    if k == 'm-unmarshal': return '(mUN %s %s %s %s)' % (N(e[1]), N(e[2]), C.coq_bool(e[3]), C.coq_bool(e[4]))
+    if k == 'm-handle': return '(mHD %s %s)' % (N(e[1]), N(e[2]))
+    return 'mNF'
+def mtrace_term(x):
+    if not x.get('wrapped'): return 'mNone'
+    return '(mSome %s)' % C.coq_list([mevent_term(e) for e in x.get('mtrace') or []])
+
 def describe(d, tabs):
     return dict(readable=dict(metadata={sv(k): sv(v) for k, v in d['meta']}, payload=sv(d['payload']), sent_value=rv(*d['sent']) if d.get('sent') else None,
                               handlers=['h%d:%s' % (h[0], TYPES[h[1]]) for h in d['handlers']], observed=rtrace(d['trace'])),
@@ -190,6 +205,7 @@ def run(ctx, nscen=None, nbus=None):
             res.count('marshaler=%s' % MARSH[tabs[d['tab']]['marshaler']])
             res.count('source=%s' % d['source'])
             res.count('onhandle=%s' % OH[d['onhandle']])
+            res.count('marshaler_wrapped=%s' % bool(d.get('wrapped')))
             res.count('flags=ackErr:%d,ackUnknown:%d' % (d['ack_errors'], d['ack_unknown']))
             res.count('handlers_in_router_handler=%d' % len(d['handlers']))
             res.count('router_handlers_on_processor=%d' % d['router_handlers'])
@@ -253,11 +269,22 @@ def run(ctx, nscen=None, nbus=None):
         r = C.coq_eval(pid, 'cases_%d' % rnd, HEADER + tabdefs
                        + 'Definition cases : list c15_case := %s.\n' % C.coq_list([case_term(d) for d in good])
                        + 'Definition buscases : list bus_case := %s.\n' % C.coq_list([bus_term(c) for c in busgood])
+                       + 'Definition mtraces : list (option (list (mevent val))) := %s.\n' % C.coq_list([mtrace_term(d) for d in good])
+                       + 'Definition bmtraces : list (option (list (mevent val))) := %s.\n' % C.coq_list([mtrace_term(c) for c in busgood])
                        + 'Definition regscases : list regs_case := %s.\n' % C.coq_list([regs_term(c) for c in regsgood])
                        + 'Definition regcases : list reg_case := %s.\n' % C.coq_list([reg_term(c) for c in reggood])
                        + 'Definition tabs : list codec_tab := %s.\n' % C.coq_list(['tab%d' % i for i in used]),
                        [('R_mis', 'c15_mismatches cases'), ('R_vio', 'c15_violations cases'),
-                        ('B_mis', 'bus_mismatches buscases'), ('B_vio', 'bus_violations buscases'), ('T_rt', 'c15_tab_failures tabs'), ('G_mis', 'reg_mismatches regcases'), ('S_mis', 'regs_mismatches regscases'), ('S_vio', 'regs_violations regscases')])
+                        ('B_mis', 'bus_mismatches buscases'), ('B_vio', 'bus_violations buscases'), ('T_rt', 'c15_tab_failures tabs'), ('G_mis', 'reg_mismatches regcases'), ('S_mis', 'regs_mismatches regscases'), ('S_vio', 'regs_violations regscases'),
+                        ('M_mis', 'mc_mismatches cases mtraces'), ('M_vio', 'mc_violations cases mtraces'), ('BM_mis', 'bmc_mismatches buscases bmtraces'), ('BM_vio', 'bmc_violations buscases bmtraces')])
+        for i in r['M_vio']:
+            res.violations.append(dict(signature=sig_of(good[i]) + '/marshaler-calls', what='marshaler call discipline violated (NameFromMessage once and first / Unmarshal only on a name match into a fresh object / Handle on the decoded object / nothing after a failed Unmarshal)', case=dict(describe(good[i], tabs), marshaler_calls=good[i].get('mtrace'))))
+        for i in r['M_mis']:
+            res.mismatches.append(dict(kind='Corr.C15.mc_mismatch (CQRS/Calls.v proc_mcalls vs the marshaler calls of the closure)', explained_by_violation=i in r['M_vio'], case=dict(describe(good[i], tabs), marshaler_calls=good[i].get('mtrace'))))
+        for i in r['BM_vio']:
+            res.violations.append(dict(signature='C15/bus/marshaler-calls', what='a bus call must call Marshal exactly once, first, on the value sent (then Name iff it succeeded)', case=dict(describe_bus(busgood[i], tabs), marshaler_calls=busgood[i].get('mtrace'))))
+        for i in r['BM_mis']:
+            res.mismatches.append(dict(kind='Corr.C15.bmc_mismatch (CQRS/Calls.v bus_mcalls vs the marshaler calls of Send/Publish)', explained_by_violation=i in r['BM_vio'], case=dict(describe_bus(busgood[i], tabs), marshaler_calls=busgood[i].get('mtrace'))))
         for i in r['S_vio']:
             res.violations.append(dict(signature='C15/registration/monitor', what='registration script rejected by the C15 registration acceptor (router handlers = one per registrable handler of the longest good prefix, named HandlerName / group name, on the generated topic, own subscriber; callback parameters; duplicate batch / refused group changes nothing; result)', case=describe_regs(regsgood[i])))
         for i in r['S_mis']:
